@@ -4,6 +4,7 @@ import (
 	"fmt"
 	"net"
 	"os"
+	"runtime"
 	"sort"
 	"strconv"
 	"strings"
@@ -182,11 +183,32 @@ func execSK(c *ctx, ops []string) *caseResult {
 			}
 		}
 	}
+	// sockets orphaned by a re-open are closed by finalizers at an arbitrary time: let the pending
+	// finalizers run, see which orphans are gone and tell the model (move `gc`)
+	settle := func(i int) {
+		if len(orphan) == 0 {
+			return
+		}
+		runtime.GC()
+		runtime.GC()
+		time.Sleep(2 * time.Millisecond)
+		var rest []sock
+		for _, s := range orphan {
+			if isBound(s) {
+				rest = append(rest, s)
+			} else {
+				emit(i, "sk-gc "+s.String(), "ok")
+				c.r.Hit("sk:orphan-finalized")
+			}
+		}
+		orphan = rest
+	}
 	for i := 1; i < len(ops); i++ {
 		f := strings.Fields(ops[i])
 		if len(f) == 0 {
 			continue
 		}
+		settle(i)
 		switch f[0] {
 		case "sk-init":
 			n, _ := strconv.Atoi(f[1])
@@ -294,7 +316,7 @@ func execSK(c *ctx, ops []string) *caseResult {
 			if err != nil {
 				c.r.Hit("sk:open:err")
 				// a failed setup leaves no port open
-				if n := socketFDs(); n != fds {
+				if n := socketFDs(); n > fds {
 					m.add("failed-open-leaves-socket", fmt.Sprintf("OpenHostports failed but the process holds %d sockets instead of %d", n, fds))
 				}
 				for s := range freeBefore {
